@@ -26,6 +26,7 @@ import (
 	"github.com/EliCDavis/polyform/math/quaternion"
 	"github.com/EliCDavis/polyform/math/trs"
 	"github.com/EliCDavis/polyform/modeling"
+	"github.com/EliCDavis/polyform/modeling/animation"
 	"github.com/EliCDavis/vector/vector2"
 	"github.com/EliCDavis/vector/vector3"
 	"github.com/EliCDavis/vector/vector4"
@@ -106,6 +107,7 @@ type DModel struct {
 	Mat  int    `json:"mat"`  // 1-based material pool index ; 0 = none
 	Trs  DTrs   `json:"trs"`
 	Inst []DTrs `json:"inst"`
+	Anim int    `json:"anim"` // session histories: 1 = one animation sequence and NO skeleton (invalid input); absent = none
 }
 
 type DLight struct {
@@ -472,6 +474,10 @@ func Build(d Desc) Built {
 			}
 			pm.GpuInstances = append(pm.GpuInstances, trs.New(vector3.New(t[0][0], t[0][1], t[0][2]),
 				quaternion.New(vector3.New(t[1][0], t[1][1], t[1][2]), t[1][3]), vector3.New(t[2][0], t[2][1], t[2][2])))
+		}
+		if dm.Anim > 0 {
+			pm.Animations = []animation.Sequence{animation.NewSequence("joint", []animation.Frame[vector3.Float64]{
+				animation.NewFrame(0, vector3.New(0., 0., 0.)), animation.NewFrame(1, vector3.New(1., 0., 0.))})}
 		}
 		b.Scene.Models = append(b.Scene.Models, pm)
 	}
